@@ -309,11 +309,17 @@ def run(ctx):
             if od and od['measured_degree_double_1e-13'] < args[0]:
                 ctor_obs.append('{}({}) -> key {} delivers degree {}'.format(ctor, args[0], key,
                                                                            od['measured_degree_double_1e-13']))
+                # a rule requested BY DEGREE through a constructor must be exact up to that degree (1e-13 in double)
+                ctx.violation({'rule': ctor, 'clause': 'constructor-degree', 'parity': 'even' if args[0] % 2 == 0 else 'odd'},
+                              '{}({}) asks the table for key {} and gets a rule that is exact (1e-13, double) only up to degree {} '
+                              'against its weight, not up to the requested degree {}'.format(ctor, args[0], key,
+                                                                                              od['measured_degree_double_1e-13'], args[0]),
+                              {'kind': 'constructor', 'ctor': ctor, 'args': list(args)})
     for ctor in tab_rules.CONSTRUCTORS:
         if not ctor_counts.get(ctor):
             raise common.HarnessError('constructor {} was never observed reaching a present key'.format(ctor))
     if ctor_obs:
-        ctx.note('observation (not part of the property): constructor docstrings promise deg <= N_poly; short of that: '
+        ctx.note('constructor requests whose rule falls short of the requested degree: '
                  + '; '.join(ctor_obs[:40]))
     for f in FAMILIES:
         if counts[f]['moment_checks_source'] == 0:
